@@ -110,6 +110,20 @@ def replay_variant(col, case, variant):
         for r, c, v in case["corners"]:              # the values TLC printed (oracle for the pixel formula itself)
             if int(z[r - got["r0"], c - got["c0"]]) != v:
                 col.violation("corner-cell-value", dict(rep, expected=[r, c, v], observed=float(z[r - got["r0"], c - got["c0"]])))
+        if variant == "mid" and sum(rect) % 3 == 0:
+            # the corners handed over as 0-d arrays (e.g. `da.min().values`), the SAME objects used for two requests
+            args = [np.array(v) for v in (lat_min, lon_min, lat_max, lon_max)]
+            try:
+                first = SRTM30.elevation(*args)
+                second = SRTM30.elevation(*args)
+                col.count(1)
+                if [float(a) for a in args] != [lat_min, lon_min, lat_max, lon_max]:
+                    col.violation("elevation-overwrites-its-arguments", dict(rep, observed=[float(a) for a in args]))
+                elif not all(np.array_equal(a, b) for a, b in zip(first, (lats, lons, z))) \
+                        or not all(np.array_equal(a, b) for a, b in zip(second, (lats, lons, z))):
+                    col.violation("elevation-differs-for-0d-array-corners", dict(rep, observed=[first[0][:2].tolist(), second[0][:2].tolist()]))
+            except Exception as ex:
+                col.violation("elevation-raises-" + type(ex).__name__ + "-0d-array-corners", dict(rep, observed=repr(ex)[:200]))
         names = SRTM30.get_tiles(lat_min, lon_min, lat_max, lon_max)
         col.count(1)
         if sorted(tile_index(n) for n in names) != sorted(case["tiles"]):
